@@ -592,6 +592,36 @@ def base_stubs():
         if it._off(p) != 0: raise UB('free of interior pointer')
         p.obj.freed = True
 
+    def memcpy(it, dst, src, n, *flags):
+        # cell-granular copy with the checks of the memory model; bytes never written stay uninitialised in the destination
+        if isinstance(n, Sym): n = int(n)
+        if n < 0: raise UB('memcpy of negative size')
+        if n == 0: return None
+        doff, soff = it._chk(dst, n, 'memcpy store'), it._chk(src, n, 'memcpy load')
+        if dst.obj is src.obj and doff < soff + n and soff < doff + n: raise UB('memcpy with overlapping ranges')
+        if src.obj.zeroed: raise Unsupported('memcpy from a calloc block')
+        whole, partial = [], False
+        for off, (w, v) in src.obj.cells.items():
+            if off >= soff and off + w <= soff + n: whole.append((off - soff + doff, w, v))
+            elif off < soff + n and off + w > soff: partial = True
+        for off, (w, _) in list(dst.obj.cells.items()):
+            if off < doff + n and off + w > doff:
+                if off >= doff and off + w <= doff + n and not partial: del dst.obj.cells[off]
+                else: raise Unsupported('memcpy partially overwrites an initialised cell')
+        if dst.obj.zeroed: raise Unsupported('memcpy into a calloc block')
+        for off, w, v in whole:
+            it.store(Ptr(dst.obj, off), w, v)
+        return None
+
+    def memset(it, dst, val, n, *flags):
+        if isinstance(n, Sym): n = int(n)
+        if isinstance(val, Sym): val = int(val)
+        if n == 0: return None
+        off = it._chk(dst, n, 'memset')
+        if val != 0 or off != 0 or n != dst.obj.size: raise Unsupported('memset other than zeroing a whole block')
+        dst.obj.cells.clear(); dst.obj.zeroed = True
+        return None
+
     def rand_init(it, seed):
         it.events.append(('rand_init', seed))
         return (0, 0)
@@ -612,7 +642,8 @@ def base_stubs():
 
     return {'malloc': malloc, 'calloc': calloc, 'realloc': realloc, 'free': free, 'rand_init': rand_init, 'rand_double': rand_double,
             'rand_int': rand_int, 'exp': stub_exp, 'llvm.fmuladd.f64': lambda it, a, b, c: a * b + c,
-            'llvm.dbg.declare': lambda it, *a: None}
+            'llvm.dbg.declare': lambda it, *a: None,
+            'llvm.memcpy.p0i8.p0i8.i64': memcpy, 'memcpy': memcpy, 'llvm.memset.p0i8.i64': memset, 'memset': memset}
 
 
 def mkarr(it, vals, width, name, kind='heap', watched=False):
